@@ -33,9 +33,16 @@ typedef struct {
     long n;
 } OTHER;
 
+typedef struct {
+    int k;
+    char name[];
+} NAMES;
+
 mystruct 1 one {1.5 2.5}
 mystruct 2 "two 2" {3.5 4.5}
 OTHER 42
+names 1 ab
+names 2 abcd
 '''
 
 
@@ -284,8 +291,8 @@ class Histories:
     prop = "C03"
     target = "pydl.pydlutils.yanny:yanny (write, append, __init__)"
     level = "B"
-    OPS = ["write-new", "append-rows-upper", "append-rows-lower", "append-pairs", "append-empty", "write-copy", "write-over-existing",
-           "append-to-missing", "re-read"]
+    OPS = ["write-new", "append-rows-upper", "append-rows-lower", "append-longer-string", "append-pairs", "append-pair-again", "append-empty", "write-copy",
+           "write-over-existing", "append-to-missing", "re-read"]
 
     def run_job(self, tier, seed, exclusions):
         import time
@@ -331,7 +338,9 @@ class Histories:
             par = _from_text(DOC, raw)
             par.filename = ""
             nfile = 0
-            expected_rows = {"MYSTRUCT": 2, "OTHER": 1}
+            expected_rows = {"MYSTRUCT": 2, "OTHER": 1, "NAMES": 2}
+            expected_names = ["ab", "abcd"]
+            again = 0
             expected_pairs = {"alpha": "1", "beta": "two words"}
             expected_cells = []
             for op in seq:
@@ -382,6 +391,23 @@ class Histories:
                     elif op == "append-rows-lower":
                         par.append({"other": {"n": [7, 8]}})
                         expected_rows["OTHER"] += 2
+                    elif op == "append-longer-string":
+                        # an open-width char column must widen with what is appended: once as a list, once as a record array under the lower-case name
+                        k = len(expected_names)
+                        par.append({"NAMES": {"k": [k + 1], "name": ["s%d" % k]}})
+                        rec = np.zeros((1,), dtype=[("k", "i4"), ("name", "S40")])
+                        rec["k"] = k + 2
+                        rec["name"] = ("a_much_longer_name_%d" % k + "x" * k).encode()
+                        par.append({"names": rec})
+                        expected_rows["NAMES"] += 2
+                        expected_names += ["s%d" % k, "a_much_longer_name_%d" % k + "x" * k]
+                    elif op == "append-pair-again":
+                        # a keyword that already exists (also in upper case): the appended pair is the later one in the file and wins
+                        again += 1
+                        v = "again %d" % again
+                        par.append({"alpha": v, "EXPTIME": v.upper()})
+                        expected_pairs["alpha"] = v
+                        expected_pairs["EXPTIME"] = v.upper()
                     elif op == "append-pairs":
                         k = "k%d" % len(expected_pairs)
                         par.append({k: "v v"})
@@ -407,6 +433,9 @@ class Histories:
                 bcol = [x.decode() if isinstance(x, bytes) else x for x in after["tables"]["MYSTRUCT"]["b"]]
                 if any(cell not in bcol for cell in expected_cells):
                     bad.append(("logical_content", "after %s: appended cell values %r not all among %r" % (op, expected_cells, bcol)))
+                ncol = [x.decode() if isinstance(x, bytes) else x for x in after["tables"]["NAMES"]["name"]]
+                if ncol != expected_names:
+                    bad.append(("logical_content", "after %s: names column %r, expected %r" % (op, ncol, expected_names)))
                 if sizes != expected_rows or after["pairs"] != expected_pairs:
                     bad.append(("logical_content", "after %s: rows %s pairs %s" % (op, sizes, sorted(after["pairs"]))))
         return bad
